@@ -236,9 +236,18 @@ fn miri_engine(verif: &str, sim: &str, first_seed: u64, seeds: u64, count: u64, 
     let t0 = Instant::now();
     let chunk = if seeds <= 32 { 2 } else { 4 };
     let chunks: Vec<(u64, u64)> = (0..seeds).step_by(chunk as usize).map(|o| (first_seed + o, chunk.min(seeds - o))).collect();
-    let next = std::sync::atomic::AtomicUsize::new(0);
+    let next = std::sync::atomic::AtomicUsize::new(1);
     let failed = std::sync::atomic::AtomicBool::new(false);
     let results: std::sync::Mutex<Vec<MiriOutcome>> = std::sync::Mutex::new(Vec::new());
+    // the first chunk runs alone: on a fresh checkout it is the one that builds the interpreter's sysroot and
+    // compiles the simulator for it, which concurrent cargo invocations should not race for
+    if let Some(c0) = chunks.first() {
+        let o = miri_engine_one(verif, sim, c0.0, c0.1, count, max_secs);
+        if o.harness_error.is_some() || !o.error_excerpt.is_empty() {
+            failed.store(true, std::sync::atomic::Ordering::SeqCst);
+        }
+        results.lock().unwrap_or_else(|e| e.into_inner()).push(o);
+    }
     std::thread::scope(|sc| {
         for _ in 0..16.min(chunks.len()) {
             sc.spawn(|| loop {
